@@ -32,10 +32,16 @@ def attrs(n, lab):
 def impl(case):
     tups = case.get("ca", [])
     if "trees" in case:
-        cls = CLASSES[case.get("cls", "nm")]
         index = {}
-        for t in case["trees"]:
-            build(t, cls, None, index)
+        if case.get("cls") == "sortedview":
+            # the case's trees list the children sorted by label; they are attached in the opposite order
+            from .util import SortedView, reversed_tree
+            for t in case["trees"]:
+                build(reversed_tree(t), SortedView, None, index)
+        else:
+            cls = CLASSES[case.get("cls", "nm")]
+            for t in case["trees"]:
+                build(t, cls, None, index)
         lab = lambda x: x.label
         nav = {str(k): attrs(n, lab) for k, n in index.items()}
         ca = [[lab(x) for x in autil.commonancestors(*[index[l] for l in tup])] for tup in tups]
